@@ -31,6 +31,10 @@ fn exec_scc(c: &Case, obs: &mut Vec<String>) {
         match t[0] {
             "e" => pending.push(InputEdge::new(t[1].parse().unwrap(), t[2].parse().unwrap(), 1)),
             "run" => do_run = true,
+            "fresh" => {
+                tarjan = Tarjan::new();
+                gabow = PathBasedScc::new();
+            }
             "gm" => {
                 let n: usize = t[1].parse().unwrap();
                 let mask: u64 = t[2].parse().unwrap();
@@ -64,38 +68,41 @@ fn exec_scc(c: &Case, obs: &mut Vec<String>) {
 
 fn exec_mst(c: &Case, obs: &mut Vec<String>) {
     let mut inp: Vec<SimpleEdge> = Vec::new();
-    let mut called = false;
+    let mut k = 0;
     for l in &c.ops {
         let t: Vec<&str> = l.split_whitespace().collect();
         match t[0] {
             "w" => inp.push(SimpleEdge::new(t[1].parse().unwrap(), t[2].parse().unwrap(), t[3].parse().unwrap())),
-            "kruskal" => called = true,
+            "kruskal" => {
+                let cur = std::mem::take(&mut inp);
+                let (cost, mst) = kruskal(&cur);
+                obs.push(format!("D {k} cost={cost}"));
+                // connectivity partition of 0..=max id induced by the returned edges (plain label merging)
+                let n = cur.iter().map(|e| e.source.max(e.target)).max().unwrap_or(0) + 1;
+                let mut lab: Vec<usize> = (0..n).collect();
+                for e in &mst {
+                    if e.source < n && e.target < n {
+                        let (a, b) = (lab[e.source], lab[e.target]);
+                        if a != b {
+                            let (lo, hi) = (a.min(b), a.max(b));
+                            for x in lab.iter_mut() {
+                                if *x == hi {
+                                    *x = lo
+                                }
+                            }
+                        }
+                    }
+                }
+                obs.push(format!("D {k} part={}", join(canon(&lab), ",")));
+                obs.push(format!(
+                    "F {k} mst={}",
+                    join(mst.iter().map(|e| format!("{}-{}-{}", e.source, e.target, e.data)), ";")
+                ));
+                k += 1;
+            }
             _ => panic!("bad op"),
         }
     }
-    if !called {
-        return;
-    }
-    let (cost, mst) = kruskal(&inp);
-    obs.push(format!("D cost={cost}"));
-    // connectivity partition of 0..=max id induced by the returned edges (plain label merging)
-    let n = inp.iter().map(|e| e.source.max(e.target)).max().unwrap_or(0) + 1;
-    let mut lab: Vec<usize> = (0..n).collect();
-    for e in &mst {
-        if e.source < n && e.target < n {
-            let (a, b) = (lab[e.source], lab[e.target]);
-            if a != b {
-                let (lo, hi) = (a.min(b), a.max(b));
-                for x in lab.iter_mut() {
-                    if *x == hi {
-                        *x = lo
-                    }
-                }
-            }
-        }
-    }
-    obs.push(format!("D part={}", join(canon(&lab), ",")));
-    obs.push(format!("F mst={}", join(mst.iter().map(|e| format!("{}-{}-{}", e.source, e.target, e.data)), ";")));
 }
 
 fn exec_uf(c: &Case, obs: &mut Vec<String>) {
@@ -250,23 +257,25 @@ fn gen_scc(rng: &mut Rng, tier: Tier, out: &mut Vec<Case>) {
     // exhaustive: every digraph on <= N nodes incl. self-loops, fresh objects
     let nx: usize = if tier == Tier::Quick { 3 } else { 4 };
     let total: u64 = 1u64 << (nx * nx);
-    if tier == Tier::Quick {
-        for mask in 0..total {
-            let mut c = Case::new(&format!("scc-ex{nx}-fresh"));
-            c.op(format!("gm {nx} {mask}"));
-            out.push(c);
+    // quick: one graph per case; thorough: 32 graphs per case, each on FRESH objects (`fresh` op), to
+    // keep the number of cases (and the per-case file traffic of the executor) small
+    let batch: u64 = if tier == Tier::Quick { 1 } else { 32 };
+    let mut c = Case::new(&format!("scc-ex{nx}-fresh"));
+    for mask in 0..total {
+        if batch > 1 {
+            c.op("fresh");
         }
-    } else {
-        // 4 nodes: 65536 graphs, fresh object each
-        for mask in 0..total {
-            let mut c = Case::new(&format!("scc-ex{nx}-fresh"));
-            c.op(format!("gm {nx} {mask}"));
-            out.push(c);
+        c.op(format!("gm {nx} {mask}"));
+        if (mask + 1) % batch == 0 {
+            out.push(std::mem::replace(&mut c, Case::new(&format!("scc-ex{nx}-fresh"))));
         }
     }
     // exhaustive again, on objects that already analysed 1-2 other graphs (bigger and smaller)
+    let mut c = Case::new(&format!("scc-ex{nx}-reused"));
     for mask in 0..total {
-        let mut c = Case::new(&format!("scc-ex{nx}-reused"));
+        if batch > 1 {
+            c.op("fresh");
+        }
         let pre = 1 + rng.below(2);
         for j in 0..pre {
             // first a bigger one, then (if two) a smaller one; sometimes the other way round
@@ -277,7 +286,9 @@ fn gen_scc(rng: &mut Rng, tier: Tier, out: &mut Vec<Case>) {
             push_graph(&mut c, &es);
         }
         c.op(format!("gm {nx} {mask}"));
-        out.push(c);
+        if (mask + 1) % batch == 0 {
+            out.push(std::mem::replace(&mut c, Case::new(&format!("scc-ex{nx}-reused"))));
+        }
     }
     if tier == Tier::Thorough {
         // every digraph on 5 nodes without self-loops (2^20), 64 graphs per object
@@ -327,6 +338,16 @@ fn multisets(types: usize, k: usize, cur: &mut Vec<usize>, start: usize, out: &m
     }
 }
 
+/// append one kruskal input (shuffled, random orientations) to a case
+fn mst_input(c: &mut Case, rng: &mut Rng, edges: &[(usize, usize, u32)]) {
+    let mut es: Vec<(usize, usize, u32)> = edges.to_vec();
+    rng.shuffle(&mut es);
+    for (u, v, w) in es {
+        if rng.chance(1, 2) { c.op(format!("w {u} {v} {w}")); } else { c.op(format!("w {v} {u} {w}")); }
+    }
+    c.op("kruskal");
+}
+
 fn mst_case(family: &str, rng: &mut Rng, edges: &[(usize, usize, u32)]) -> Case {
     let mut c = Case::new(family);
     let mut es: Vec<(usize, usize, u32)> = edges.to_vec();
@@ -355,12 +376,25 @@ fn gen_mst(rng: &mut Rng, tier: Tier, out: &mut Vec<Case>) {
         }
     }
     let kmax = if tier == Tier::Quick { 3 } else { 5 };
+    // thorough: 32 inputs per case
+    let batch = if tier == Tier::Quick { 1 } else { 32 };
     for k in 1..=kmax {
         let mut ms = Vec::new();
         multisets(types.len(), k, &mut Vec::new(), 0, &mut ms);
+        let fam = format!("mst-ex4-{k}");
+        let mut c = Case::new(&fam);
+        let mut inside = 0;
         for m in ms {
             let es: Vec<(usize, usize, u32)> = m.iter().map(|i| types[*i]).collect();
-            out.push(mst_case(&format!("mst-ex4-{k}"), rng, &es));
+            mst_input(&mut c, rng, &es);
+            inside += 1;
+            if inside == batch {
+                out.push(std::mem::replace(&mut c, Case::new(&fam)));
+                inside = 0;
+            }
+        }
+        if inside > 0 {
+            out.push(c);
         }
     }
     if tier == Tier::Quick {
